@@ -29,18 +29,22 @@ pub enum SheetOp {
 
 #[derive(Clone, Debug, Serialize, Deserialize)]
 pub struct Case {
+    #[serde(default)]
+    pub third: Option<String>,
     pub cells: Vec<(u32, i32, i32, String)>,
     pub names: Vec<(String, String)>,
     pub op: SheetOp,
 }
 
 const SHEETS: &[&str] = &["Sheet1", "Sheet2", "My Sheet"];
+/// an alternative name for the third sheet (a quote inside a quoted name is doubled in formulas)
+const THIRD_ALT: &str = "x'y";
 
 fn build(case: &Case) -> Option<Model<'static>> {
     let mut m = Model::new_empty("wb", "en", "UTC", "en").ok()?;
     m.new_sheet();
     m.new_sheet();
-    m.rename_sheet_by_index(2, "My Sheet").ok()?;
+    m.rename_sheet_by_index(2, case.third.as_deref().unwrap_or("My Sheet")).ok()?;
     for (n, f) in &case.names {
         let _ = m.new_defined_name(n, None, f);
     }
@@ -156,10 +160,15 @@ fn check(case: &Case, st: &mut Stats) -> Option<(String, String, String)> {
 
 fn gen(rng: &mut rand::rngs::StdRng) -> Case {
     let en = Dialect::new("en", "en");
+    let third = if rng.gen_bool(0.3) { Some(THIRD_ALT.to_string()) } else { None };
+    let quoted = |i: usize| -> String {
+        let name = if i == 2 { third.as_deref().unwrap_or(SHEETS[2]) } else { SHEETS[i] };
+        if name.contains(' ') || name.contains('\'') { format!("'{}'", name.replace('\'', "''")) } else { name.to_string() }
+    };
     let mut cells = vec![];
     let mut names = vec![];
     if rng.gen_bool(0.4) {
-        names.push(("total".to_string(), format!("={}!$A$1+{}!$B$2", pick(rng, &["Sheet1", "Sheet2", "'My Sheet'"]), pick(rng, &["Sheet1", "Sheet2", "'My Sheet'"]))));
+        names.push(("total".to_string(), format!("={}!$A$1+{}!$B$2", quoted(rng.gen_range(0..3)), quoted(rng.gen_range(0..3)))));
     }
     for s in 0..3u32 {
         for _ in 0..rng.gen_range(3..10) {
@@ -175,7 +184,7 @@ fn gen(rng: &mut rand::rngs::StdRng) -> Case {
                 let r2 = if target == s { if r == 1 { continue } else { rng.gen_range(1..r) } } else { rng.gen_range(1..=6) };
                 let prefix = match (target == s, rng.gen_bool(0.3)) {
                     (true, false) => String::new(),
-                    _ => format!("{}!", if SHEETS[target as usize].contains(' ') { format!("'{}'", SHEETS[target as usize]) } else { SHEETS[target as usize].to_string() }),
+                    _ => format!("{}!", quoted(target as usize)),
                 };
                 pool.cells.push(format!("{prefix}{}{}", col_name(rng.gen_range(1..=5)), r2));
             }
@@ -198,7 +207,7 @@ fn gen(rng: &mut rand::rngs::StdRng) -> Case {
         1 => SheetOp::Move(rng.gen_range(0..3), rng.gen_range(0..3)),
         _ => SheetOp::Duplicate(rng.gen_range(0..3)),
     };
-    Case { cells, names, op }
+    Case { third, cells, names, op }
 }
 
 fn run(ctx: &Ctx) -> Stats {
